@@ -33,7 +33,17 @@ pub struct Case {
 fn strategy(tier: Tier) -> BoxedStrategy<Case> {
     let g = ArrGen { derived: false, ..no_acp_gen(tier.pick(25, 50)) };
     (
-        proptest::collection::vec((arr_strategy(g), cost_strategy(12, false)), 1..=4),
+        proptest::collection::vec(
+            (
+                arr_strategy(g),
+                prop_oneof![
+                    8 => cost_strategy(12, false),
+                    // multiframe vectors with zero-cost frames
+                    2 => proptest::collection::vec(prop_oneof![1 => Just(0u64), 3 => 0u64..=12], 1..=5).prop_map(|costs| CostSpec::Multiframe { costs }),
+                ],
+            ),
+            1..=4,
+        ),
         prop_oneof![
             Just(AggKind::Aggregate),
             Just(AggKind::Slice),
